@@ -693,6 +693,39 @@ def oracle_phase(key, A, B, F, pred, store, dags):
     return fails + [{"kind": "_ran"}]
 
 
+def malformed(case):
+    """independent of the code: a dependency of the second DAG that is not an id of its phase; the constant None"""
+    out = set()
+    for ph in case["dag2"]["phases"]:
+        ids = {st["id"] for st in ph["stmts"]}
+        if any(d not in ids for st in ph["stmts"] for d in st["deps"]):
+            out.add("dangling_dependency")
+    if '["none"]' in json.dumps(case["dag2"]):
+        out.add("constant_none")
+    return out
+
+
+def matches_known(f, known):
+    """Narrow matchers for `open` findings.
+    class function_symbol_is_variable: a name that both methods use as a *variable* is also called as a function by
+    the second method; pymbolic's SubstitutionMapper renames the function symbol along with the variable."""
+    for k in known:
+        if k.get("class") == "function_symbol_is_variable" and f["kind"] == "function_renamed" and f.get("benign"):
+            return k
+    return None
+
+
+def open_findings():
+    """known_findings.json (assembled by harness/manifest.py) plus this property's own fragment"""
+    known = list(common.known_findings(PID))
+    frag = os.path.join(common.VERIF, "known_findings.d", PID + ".json")
+    if os.path.exists(frag):
+        for k in json.load(open(frag)):
+            if k.get("status") == "open" and k not in known:
+                known.append(k)
+    return known
+
+
 def oracle(case, rec, objs):
     dag1, dag2, fused = objs
     out = []
@@ -701,9 +734,12 @@ def oracle(case, rec, objs):
         # well-formed input is a failure of "contains both"
         if rec["out"][0] == "ValueError" and rec["out"][1].startswith(("next:", "init")):
             return []
-        if rec["out"][0] in ("KeyError",) or rec["out"][1:] == ["none"]:
-            return []     # malformed input stream (dangling dependency / the constant None)
-        return [{"kind": "unexpected_exception", "exception": rec["out"]}]
+        bad = malformed(case)
+        if rec["out"][0] == "KeyError" and "dangling_dependency" in bad:
+            return []     # malformed input stream
+        if rec["out"] == ["ValueError", "none"] and "constant_none" in bad:
+            return []
+        return [{"kind": "unexpected_exception", "exception": rec["out"], "malformed": sorted(bad)}]
     if dag1.initial_phase != fused.initial_phase:
         out.append({"kind": "initial_phase_changed"})
     for key in list(dag1.phases) + [k for k in dag2.phases if k not in dag1.phases]:
@@ -937,10 +973,15 @@ def main(tier):
     stats["hash_seed_variants"] = len(pick) * len(hs_list)
     stats["distinct_clash_orders_over_seeds"] = len(orders_seen)
 
+    known = open_findings()
     for key, (case, f) in sorted(failing.items()):
         small = shrink(case, key)
         rec2, objs2, fails2 = evaluate(small)
         f2 = next((x for x in fails2 if x["kind"] == key), f)
+        k = matches_known(f2, known)
+        if k is not None:
+            rep.known_finding(k.get("what_fails", k.get("line", "")))
+            continue
         rep.violation({"what": "fuse_two_dags: " + key.replace("_", " "),
                        "dag1": small["dag1"], "dag2": small["dag2"], "pred": small["pred"], "store": small["store"],
                        "oracle": f2, "real": describe(objs2),
